@@ -559,6 +559,11 @@ pub struct WriterPlan {
   /// a caller writes after the error then lands in the sink and is visible.
   #[serde(default)]
   pub transient: bool,
+  /// the writer implements `write_vectored` itself, like a pipe or a socket:
+  /// the byte count it accepts runs across the offered buffers (with the
+  /// default implementation only the first non-empty buffer is ever looked at)
+  #[serde(default)]
+  pub vectored: bool,
 }
 
 #[derive(Clone, Debug, Serialize, Deserialize, PartialEq, Eq, Hash, Default)]
